@@ -285,7 +285,17 @@ var c14Kinds = []string{"send", "delegate", "delegate", "delegate", "undelegate"
 
 func genC14History(t *rapid.T) History {
 	h := genHistory(t, 3, 7, c14Kinds)
-	h.Coinomics = false
+	h.Coinomics, h.CapNear = false, false
+	// minting stays off for the whole history (the supply must not move): no governance switch of coinomics
+	for i := range h.Blocks {
+		var keep []HTx
+		for _, g := range h.Blocks[i].Gov {
+			if g.K != "coinomics-switch" {
+				keep = append(keep, g)
+			}
+		}
+		h.Blocks[i].Gov = keep
+	}
 	// quiet tail: tx-free blocks with evidence, absences and time jumps
 	k := rapid.IntRange(3, 7).Draw(t, "tail")
 	for i := 0; i < k; i++ {
